@@ -49,8 +49,10 @@ impl<Octs: Octets> FlowSpecNlri<Octs> {
 
         match afi {
             Afi::Ipv4 => {
-                while parser.pos() < pos + len as usize {
-                    Component::parse(parser)?;
+                // the components must stay within the length of this NLRI
+                let mut comp_parser = parser.parse_parser(len as usize)?;
+                while comp_parser.remaining() > 0 {
+                    Component::parse(&mut comp_parser)?;
                 }
             }
             Afi::Ipv6 => {
